@@ -780,7 +780,7 @@ def index_maps(repo, res):
 
 @rule(
     "QRULE-GROUP",
-    ["C11", "C01", "C06", "C19"],
+    ["C11", "C01", "C02", "C06", "C19"],
     "_group_integrands_by_quadrature_rule, interpreted with the basix / quadrature helpers modelled symbolically: every "
     "integrand is filed under (integration-entity type, rule) where the rule is exactly the one its own metadata selects - "
     "default schemes through create_quadrature_points_and_weights(integral type, cell, degree, scheme, argument elements, "
